@@ -1,24 +1,46 @@
 #!/usr/bin/env python3
-"""tools/keep_seeded.py <ID> <seeded-name> <breaks> <caught-by,comma> -- copies a confirmed seeded change into /verif/seeded/<name>/"""
-import json, os, shutil, sys, re
-sid, name, breaks, caught = sys.argv[1:5]
+"""tools/keep_seeded.py <ID> <seeded-name> <breaks> [note] -- copies a confirmed and evaluated seeded change from
+/tmp/mut/<ID>/out into /verif/seeded/<name>/ (patch.diff, mut_demo.rs, notes.md, meta.json). The list of checks that
+caught it is taken from eval.json (written by tools/eval_lane.py); `note` is appended to the first entry (used for
+"missed by the first version ..." remarks)."""
+import json, os, shutil, sys
+sid, name, breaks = sys.argv[1:4]
+note = sys.argv[4] if len(sys.argv) > 4 else ""
 src = f"/tmp/mut/{sid}/out"; dst = f"/verif/seeded/{name}"
 os.makedirs(dst, exist_ok=True)
 for f in ("patch.diff", "mut_demo.rs", "notes.md"):
     shutil.copy(f"{src}/{f}", f"{dst}/{f}")
 log = open(f"{src}/confirm.log").read()
 verdict = [l for l in log.splitlines() if "CONFIRMED" in l or "REJECT" in l][-1]
+assert "CONFIRMED" in verdict, verdict
 notes = open(f"{src}/notes.md").read()
+ev = json.load(open(f"{src}/eval.json"))
+caught, missed = [], []
+for p, r in ev.items():
+    if not isinstance(r, dict) or "exit" not in r:
+        continue
+    if r["exit"] == 1:
+        cl = sorted(set(c.replace("class=", "") for c in r["classes"]))
+        caught.append(f"{p} ({', '.join(cl[:4])})")
+    else:
+        missed.append(p)
+# the property it was written for first
+caught.sort(key=lambda c: (not c.startswith(breaks), c))
+if note and caught:
+    caught[0] += " — " + note
+sec = notes.split("\n## ")
+need = next((x for x in sec if x.lower().startswith("what it needs")), notes)[:1400]
 meta = {
     "breaks_property": breaks,
-    "source": "independent sub-agent given only the property text and a scratch worktree of /repo (nothing from /verif)",
-    "needs_to_manifest": " ".join(notes.split("\n\n")[2:4])[:1200] if len(notes.split("\n\n")) > 3 else notes[:1200],
+    "source": "independent sub-agent given only the property text, the titles of earlier proposals and a scratch worktree of /repo (nothing else from /verif)",
+    "needs_to_manifest": " ".join(need.split("\n", 1)[-1].split()),
     "confirmation": {
-        "how": "tools/confirm_seeded.sh in the scratch worktree: full existing suite with the change (nextest, 92 tests, failed tests re-run alone once), then the same with the change reverted",
+        "how": "tools/confirm_seeded.sh in the scratch worktree: full existing suite with the change (nextest, 92 tests, failed tests re-run alone up to three times), then the same with the change reverted",
         "result": verdict,
     },
-    "checks_run_against_it": "tools/eval_seeded.py: patch applied to /repo's working tree, ./check <ID> quick, working tree restored",
-    "caught_by": caught.split(","),
+    "checks_run_against_it": f"tools/eval_lane.py: patch applied to a scratch worktree of /repo at {ev.get('repo_commit', '?')[:7]}, ./check <ID> quick of /verif at {ev.get('verif_commit', '?')[:7]} built against it (VERIF_REPO), worktree restored",
+    "caught_by": caught,
+    "not_flagged_by": missed,
 }
 json.dump(meta, open(f"{dst}/meta.json", "w"), indent=1)
-print("kept", dst, verdict)
+print("kept", dst, "| caught:", caught, "| not flagged:", missed)
